@@ -49,7 +49,15 @@ def run(ctx):
     import athlib
     from athlib import codes
     from athlib.utils import field_event_record
-    from athlib.utils import FIELD_EVENT_RECORDS_BY_GENDER as RECS
+    from athlib.utils import FIELD_EVENT_RECORDS_BY_GENDER as LIVE_RECS
+    # specification-side copy of the records (the same figures as Model/Perf.lean fieldRecords): the window is judged
+    # against these, never against the library's own table object (which a change may rewrite while the process runs)
+    RECS = {'m': dict(HJ=2.45, LJ=8.95, TJ=18.29, PV=6.16, HT=86.74, DT=74.08, WT=24.57, SP=23.12, JT=104.80),
+            'f': dict(HJ=2.09, LJ=7.52, TJ=15.50, PV=5.06, HT=82.98, DT=76.80, WT=22.50, SP=22.63, JT=72.28)}
+    RECS['all'] = {k: max(RECS['m'][k], RECS['f'][k]) for k in RECS['m']}
+    live_now = {g_: dict(t) for g_, t in LIVE_RECS.items()}
+    ctx.oblig('spec:field records of the specification side = the library table at start', 'correspondence', live_now == RECS,
+              '' if live_now == RECS else 'library table %r' % (live_now,))
     def record_of(ev, g_):
         # the property's reading: the record of the athlete's gender (any letter case), else the better of the two
         t = RECS.get(g_.lower()) or RECS['all']
